@@ -1,1 +1,10 @@
 import Lmd.Props.C11
+#print axioms Lmd.C11.init_all_or_nothing
+#print axioms Lmd.C11.served_old_or_new
+#print axioms Lmd.C11.new_set_is_backend
+#print axioms Lmd.C11.rebuild_fail_flagged_general
+#print axioms Lmd.C11.rebuild_fail_flagged
+#print axioms Lmd.C11.restart_detected_status
+#print axioms Lmd.C11.restart_detected_count
+#print axioms Lmd.C11.restart_stops_list
+#print axioms Lmd.C11.restart_rebuilds
